@@ -27,7 +27,44 @@ ASSUMPTIONS = [
 ]
 
 REQ_LINES = [b"gemini://h.example/", b"gemini://h.example/app/secret.gmi?x=1", b"gemini://H.Example:1965/a/../b", b"gemini://[::1]:7000/x",
-             b"titan://h.example/up/f.txt;size=3;mime=text/plain", b"titan://h.example/up/f.txt;size=0", b"titan://h.example/app/x;size=2;token=t"]
+             b"titan://h.example/up/f.txt;size=3;mime=text/plain", b"titan://h.example/up/f.txt;size=0", b"titan://h.example/app/x;size=2;token=t",
+             # Titan lines whose path part holds ';' itself (fields that are no name=value pair, dot segments behind them, empty
+             # fields): whatever the parser makes of them, the chain and the upload handler must be shown ONE request
+             b"titan://h.example/x;/../app/secret.gmi;size=3", b"titan://h.example/up/notes;draft.gmi;size=2;mime=text/plain",
+             b"titan://h.example/pub/;x/../../app/x;size=3;token=t", b"titan://h.example/a;b/c;size=0", b"titan://h.example/up/f.txt;;size=2",
+             b"titan://h.example/app;v=1/../up/f.txt;size=3;mime=text/plain", b"titan://h.example/up/f;size=2;/../../app/x"]
+
+
+TITAN_FIELDS = ("size", "mime", "token")
+
+
+def oracle_same_request(case, obs):
+    """`The chain is consulted with ... the request URL`: the URL the chain was asked about and the request the (upload) handler
+    was then handed are one and the same request - same host, port and path (Gemini: and query).  Stated on what the two spies
+    saw, with no parser of /repo in between: the chain's URL is taken apart with urlsplit; for Titan the parameters the server
+    appends (;size=..;mime=..[;token=..]) may follow the handler's path, nothing else may."""
+    if "line" not in case or not obs.get("mwargs") or not obs.get("hargs"):
+        return None
+    from urllib.parse import urlsplit
+
+    url = obs["mwargs"][0][0]
+    host, port, path, query, _raw = obs["hargs"][0]
+    what = f"the chain was consulted about {url!r} but the {'upload ' if obs['u'] else ''}handler was handed host={host!r} port={port!r} path={path!r}" + (f" query={query!r}" if query else "")
+    try:
+        u = urlsplit(url)
+        uhost, uport, upath = u.hostname, (u.port if u.port is not None else 1965), (u.path or "/")
+    except ValueError:
+        return ("mw-args", what + " (the chain's URL cannot even be split)")
+    if (uhost or "").lower() != (host or "").lower() or uport != port:
+        return ("mw-args", what)
+    if url.startswith("titan://"):
+        rest = upath[len(path):] if upath.startswith(path) else (upath if path == "/" and upath.startswith(";") else None)
+        fields = [f for f in rest[1:].split(";")] if rest and rest.startswith(";") else []
+        if rest is None or (rest and not rest.startswith(";")) or any(f.partition("=")[0].strip() not in TITAN_FIELDS or "=" not in f for f in fields):
+            return ("mw-args", what + ": these are two different resources")
+    elif upath != path or (query is not None and u.query != query):
+        return ("mw-args", what + ": these are two different resources")
+    return None
 
 
 class Gate(ConnFamily):
@@ -90,8 +127,16 @@ class Gate(ConnFamily):
             gfp = got[2]
             if got[0] != want_url or got[1] != case["peer"] or (gfp or None) != want_fp:
                 return ("mw-args", f"chain consulted with {got}, expected url={want_url!r} ip={case['peer']!r} fingerprint={want_fp!r}")
+            v = oracle_same_request(case, obs)
+            if v:
+                return v
         # a deny verdict consumed while the chain was pending must be what the client receives
         return None
+
+
+def _delay(spec):
+    """seconds a scripted component takes before it answers (outcome `slow`), 0 for every other component"""
+    return spec[3] if spec[0] in ("allow", "deny", "raise") and len(spec) > 3 else 0
 
 
 def _mk_component(spec, loop):
@@ -115,6 +160,8 @@ def _mk_component(spec, loop):
 
     class Scripted:
         async def process_request(self, url, ip, fp=None):
+            if len(spec) > 3 and spec[3]:
+                await asyncio.sleep(spec[3])       # outcome `slow`: seconds of the event loop's clock (virtual: `tick` events)
             for _ in range(spec[2] if len(spec) > 2 else 0):
                 await asyncio.sleep(0)
             if k == "allow":
@@ -141,8 +188,18 @@ class Chain(ConnFamily):
             ["cert", "/app/", True, None], ["cert", "/", False, [0]], ["cert", "/up/", True, [1, 2]], ["cert", "/app/", False, []],
             ["allow", None, 0], ["allow", None, 2], ["deny", "51 Not here\r\n", 0], ["deny", "53 Go away\r\n", 3], ["deny", None, 1], ["raise", None, 0], ["raise", None, 2],
         ]
-        for _ in range(n):
+        # outcome `slow`: components that take seconds, minutes of the loop's clock before they allow, deny or raise (a lookup that
+        # hangs, a lock held elsewhere); the clock moves by `tick` events (eighths of a second) after the request is complete
+        slow = [[k, r, y, d] for k, r in (("allow", None), ("deny", "53 Go away\r\n"), ("deny", "51 Not here\r\n"), ("deny", None), ("raise", None))
+                for y in (0, 2) for d in (0.5, 2.5, 4.0, 6.0, 7.0, 12.0, 30.0, 75.0, 600.0)]
+        for i in range(n):
             comps = [rng.choice(pool) for _ in range(rng.randint(1, 3))]
+            timed = i % 4 == 1
+            if timed:
+                for _ in range(rng.choice((1, 1, 2))):
+                    comps[rng.randrange(len(comps))] = rng.choice(slow)
+                if len(comps) < 3 and rng.random() < 0.3:
+                    comps.append(rng.choice(slow))
             line = rng.choice(REQ_LINES)
             content = b"abc" if b"size=3" in line else b"xy" if b"size=2" in line else b""
             stream = line + b"\r\n" + content + (b"EXTRA" if rng.random() < 0.2 else b"")
@@ -153,32 +210,63 @@ class Chain(ConnFamily):
             tail = [["ha", [20, "text/gemini", ["s", "late"]]], ["ua", [20, "text/gemini", None]]]
             if rng.random() < 0.2:
                 tail.insert(0, rng.choice([["l"], ["tick", 300]]))
+            if timed:
+                total = sum(_delay(s) for s in comps)
+                r = rng.random()
+                if r < 0.3:        # one jump of the clock past everything
+                    ticks = [int(total * 8) + rng.choice((1, 8, 800))]
+                elif r < 0.6:      # second by second (at most 40 steps), then the rest
+                    ticks = [8] * min(40, int(total) + 2) + [max(8, int(total * 8))]
+                elif r < 0.85:     # uneven steps
+                    ticks = [rng.choice((1, 7, 8, 20, 39, 40, 41, 100, 240, 1000)) for _ in range(rng.randint(1, 12))] + ([int(total * 8) + 8] if rng.random() < 0.6 else [])
+                else:              # not enough time: the chain has not decided when the case ends
+                    ticks = [max(1, int(total * 8) // rng.choice((2, 3, 8)))]
+                tail = tail[:-2] + [["tick", t] for t in ticks] + tail[-2:]
             yield {"mw": True, "up": True, "handler": handler, "evs": evs + tail, "chain": comps, "line": line.decode(),
                    "cert": rng.choice([None, 0, 1, 2, 3, 0, 3]), "peer": rng.choice(["192.0.2.7", "2001:db8::5", "10.1.2.3"])}
 
-    def _verdict(self, case):
-        """reference: evaluate every component on its own, in order; first non-allow decides"""
+    def _verdict(self, case, when=False):
+        """reference: evaluate every component on its own, in order; first non-allow decides.  With `when`: (verdict, position in
+        the event list at which the chain can have decided at the earliest - None: not within this case): a component that takes
+        d seconds answers during the first `tick` event that brings the loop's clock to d seconds after it was asked"""
         from nauyaca.protocol.request import GeminiRequest, TitanRequest
 
         loop = get_loop()
         line = case["line"]
         url = (TitanRequest.from_line(line) if line.startswith("titan://") else GeminiRequest.from_line(line)).normalized_url
         fp = None if case.get("cert") is None else sim.cert_pool()[case["cert"]][1]
+        evs = case["evs"]
+        pos, clock = 2, 0          # the real chain starts while the loop drains after the read that completes the request
+        verdict = ["ma"]
         for spec in case["chain"]:
-            comp = _mk_component(spec, loop)
+            delay = _delay(spec)
+            if delay:
+                due = clock + int(delay * 8)
+                while pos is not None and clock < due:
+                    nxt = next((i for i in range(pos, len(evs)) if evs[i][0] == "tick"), None)
+                    if nxt is None:
+                        pos = None
+                    else:
+                        clock += evs[nxt][1]
+                        pos = nxt + 1
+                clock = max(clock, due) if pos is None else clock
+            comp = _mk_component(spec[:3] if delay else spec, loop)
             try:
                 ok, resp = loop.run_until_complete(comp.process_request(url, case["peer"], fp))
             except Exception:
-                return ["mr"]
+                verdict = ["mr"]
+                break
             if not ok:
-                return ["mn"] if resp is None else ["md", resp]
-        return ["ma"]
+                verdict = ["mn"] if resp is None else ["md", resp]
+                break
+        return (verdict, pos) if when else verdict
 
     def _with_verdict(self, case):
         c = dict(case)
         evs = list(case["evs"])
-        # the real chain completes while the loop drains after the read that completes the request
-        evs.insert(2, self._verdict(case))
+        verdict, pos = self._verdict(case, when=True)
+        if pos is not None:
+            evs.insert(pos, verdict)
         c["evs"] = evs
         return c
 
@@ -198,6 +286,12 @@ class Chain(ConnFamily):
         o = loop.run_until_complete(sim.run_conn(loop, case, middleware=chain))
         o["m"] = len(seen)
         o["mwargs"] = seen
+        # a component that is still waiting for its time when the case ends must not wake up during a later case on this loop
+        left = [t for t in asyncio.all_tasks(loop) if not t.done()]
+        for t in left:
+            t.cancel()
+        if left:
+            loop.run_until_complete(sim._drain())
         return o
 
     def model(self, case):
@@ -206,7 +300,9 @@ class Chain(ConnFamily):
     def expect(self, case, out):
         e = parse_model(out)
         # the model has one event more (the verdict) than the implementation run
-        e["lens"] = e["lens"][:2] + e["lens"][3:]
+        pos = self._verdict(case, when=True)[1]
+        if pos is not None:
+            e["lens"] = e["lens"][:pos] + e["lens"][pos + 1:]
         return e
 
     def same(self, exp, obs):
@@ -219,10 +315,17 @@ class Chain(ConnFamily):
         v = self.oracle_once(case, obs)
         if v:
             return v
-        verdict = self._verdict(case)
+        verdict, pos = self._verdict(case, when=True)
         lost_first = False
         raw = b"".join(bytes.fromhex(a[1]) for a in obs["acts"] if a[0] == "w")
         pr = sim.parse_response(raw) if raw else None
+        if pos is None and (obs["h"] or obs["u"]):
+            secs = sum(e[1] for e in case["evs"] if e[0] == "tick") / 8
+            return ("handler-ungated", f"the chain cannot have decided yet ({secs} s have passed since the request; components {[s for s in case['chain'] if _delay(s)]} take their "
+                                       f"time one after the other; the verdict will be {verdict}), yet handler={obs['h']} upload={obs['u']} ran")
+        v = oracle_same_request(case, obs)
+        if v:
+            return v
         if verdict[0] != "ma":
             if obs["h"] or obs["u"]:
                 return ("handler-ungated", f"chain verdict {verdict} yet handler={obs['h']} upload={obs['u']} ran")
@@ -238,7 +341,7 @@ class Chain(ConnFamily):
 
     def key(self, case, obs):
         raw = b"".join(bytes.fromhex(a[1]) for a in obs["acts"] if a[0] == "w")
-        return f"{'titan' if case['line'].startswith('titan') else 'gemini'}|{'+'.join(s[0] for s in case['chain'])}|{raw[:2].decode('latin1')}|h{obs['h']}u{obs['u']}"
+        return f"{'titan' if case['line'].startswith('titan') else 'gemini'}|{'+'.join(s[0] + ('~t' if _delay(s) else '') for s in case['chain'])}|{raw[:2].decode('latin1')}|h{obs['h']}u{obs['u']}"
 
 
 class PumpGate(PumpFamily):
